@@ -441,6 +441,7 @@ def run(ctx):
     _version_gates(ctx)
     _error_protocol(ctx)
     _fresh_record_per_iteration(ctx)
+    _flag_values_are_format(ctx)
 
 
 def _byte_copy(ctx):
@@ -1099,3 +1100,29 @@ def _fresh_record_per_iteration(ctx):
                 ctx.ob("R12.9", "%s|%s|fresh-per-record" % (f.name + ("<%s>" % f.sig.split("vector<")[-1].split(">")[0] if "idf_input_vector" in f.name else ""), show(c["a"][-1])), ok, f.loc(c),
                        "`%s` is filled by >> in a loop and is %s" % (show(c["a"][-1]), "made anew for each record" if ok else "declared OUTSIDE the loop: what one record leaves set shows up in the next"))
     ctx.floor("R12.9", "record objects filled in reader loops", n, 6)
+
+
+def _flag_values_are_format(ctx):
+    """R12.10: the `_flags` words of the record classes are written to the .in file as plain integers.  The value of every
+    flag enumerator is therefore part of the file format: regrouping the enumeration (swapping F_sequence and
+    F_has_insert_function, say) changes the meaning of every existing 3.0-3.3 file without any version bump, while the
+    new build's own write/read round trip stays consistent.  Oracle: ivf/spec/idb_flag_values.json (the released
+    format).  (Seed S7-C12.)"""
+    import json
+    import os
+    db = ctx.db
+    ctx.rule("R12.10", "every flag enumerator of the database record classes that exists in the released file format keeps its numeric value (new enumerators may be added)")
+    spec = json.load(open(os.path.join(os.path.dirname(os.path.dirname(__file__)), "spec", "idb_flag_values.json")))["enums"]
+    n = 0
+    for en_name, want in sorted(spec.items()):
+        en = db.enums.get(en_name)
+        if en is None:
+            ctx.ob("R12.10", "%s|exists" % en_name, False, "src/interrogatedb", "enumeration %s is gone" % en_name)
+            continue
+        have = {c["n"].split("::")[-1]: c["v"] for c in en["consts"]}
+        for k, v in sorted(want.items()):
+            n += 1
+            ok = have.get(k) == v
+            ctx.ob("R12.10", "%s::%s|value" % (en_name, k), ok, "%s:%s" % ((en.get("file") or "src/interrogatedb").replace("/repo/", ""), en.get("line", 0)),
+                   "%s = %s (released format: %s)" % (k, have.get(k, "missing"), v))
+    ctx.floor("R12.10", "flag enumerators of the file format", n, 60)
